@@ -623,6 +623,27 @@ def rule_b6(ctx):
         res.ok({"lookups_before_the_gate": len(dom), "verdict": "read wires and the written wire are looked up in the assigned-table before the gate is built; the written wire is marked"})
     else:
         res.bad(Finding("B6", root, "gate built without consulting the assigned-table", "a gate line is accepted without checking its wires against the table of assigned wires", body.term(pb)["sp"]))
+    # order inside one iteration: the gate's own output is marked only after the wires it reads were looked up - a look-up of
+    # the table that can follow the mark in the same iteration finds the gate's own output "assigned" (a gate reading itself)
+    glp = [l for l in body.loops() if pb in l["body"]]
+    if glp:
+        inner = min(glp, key=lambda l: len(l["body"]))
+
+        def in_iteration(x):
+            return [y for y in body.succs(x) if y in inner["body"] and y != inner["header"] and not body.blocks[y]["cleanup"]]
+        late = []
+        for sb, st_ in stores:
+            if sb not in inner["body"]:
+                continue
+            for lb, lt in lookups:
+                if lb in inner["body"] and lb != sb and body.path(sb, [lb], succ=in_iteration):
+                    late.append((sb, lb, lt))
+        if late:
+            res.bad(Finding("B6", root, "assigned-table consulted after the gate's own output was marked",
+                            "a look-up of the assigned-table (line %d) can follow the mark of the gate's output wire in the same iteration: a gate line that reads its own output "
+                            "(`2 1 2 3 3 XOR`) is accepted and the imported circuit is cyclic" % late[0][2]["sp"][1], body.term(late[0][0])["sp"]))
+        else:
+            res.ok({"verdict": "no look-up of the assigned-table follows the mark of the output wire within one iteration"})
     # outputs: after the loop over the lines, the table is examined again before Ok
     oks = [b for b, blk in enumerate(body.blocks) if not blk["cleanup"] for st in blk["stmts"]
            if st["k"] == "assign" and st["place"]["l"] == 0 and st["rv"]["k"] == "aggregate" and st["rv"].get("variant") == "Ok"]
@@ -651,6 +672,17 @@ def rule_b7(ctx):
     body = ctx.body(root)
     pushes = [(b, t) for b, t in body.calls() if mir.last_seg(mir.callee(t) or "") == "push" and len(t["args"]) == 2
               and "circuit::Gate" in t["args"][1].get("place", {}).get("ty", "") and not body.blocks[b]["cleanup"]]
+    appended = {b: 1 for b, _ in pushes}
+    # `gates.extend([g1, g2])`: as many gates as the array literal has elements
+    for b, t in body.calls():
+        if mir.last_seg(mir.callee(t) or "") == "extend" and len(t["args"]) == 2 and not body.blocks[b]["cleanup"] \
+                and "circuit::Gate" in t["args"][1].get("place", {}).get("ty", "") and "Vec<circuit::Gate>" in t["args"][0].get("place", {}).get("ty", ""):
+            for (r, p) in body.trace_operand(t["args"][1]):
+                if r[0] == "agg":
+                    rv = body.blocks[r[1]]["stmts"][r[2]]["rv"]
+                    if rv.get("akind") == "array":
+                        pushes.append((b, t))
+                        appended[b] = len(rv["ops"])
     loops = [lp for lp in body.loops() if any(b in lp["body"] for b, _ in pushes)]
     if not pushes or not loops:
         raise AnchorMissing("B7: expected the exporter to append helper gates for repeated output wires inside a loop")
@@ -730,15 +762,16 @@ def rule_b7(ctx):
                             if any(o["k"] in ("copy", "move") and o["place"]["l"] == l for o in ops):
                                 steps += [o.get("val") for o in ops if o["k"] == "const"]
             chain = all(body.dominates(pushes[i][0], pushes[i + 1][0]) for i in range(len(pushes) - 1))
-            if len(steps) == 1 and steps[0] is not None and chain and steps[0] != len(pushes) and not bad:
+            per_iteration = sum(appended.get(pb_, 1) for pb_, _ in pushes)
+            if len(steps) == 1 and steps[0] is not None and chain and steps[0] != per_iteration and not bad:
                 res.bad(Finding("B7", root, "counter step differs from the number of helper gates",
-                                "every iteration appends %d gates (each defines one wire) but advances the wire counter by %s" % (len(pushes), steps[0]), st["sp"]))
+                                "every iteration appends %d gates (each defines one wire) but advances the wire counter by %s" % (per_iteration, steps[0]), st["sp"]))
                 bad = "step"
         if bad and bad != "step":
             res.bad(Finding("B7", root, "helper gates appended without advancing the wire counter",
                             "a path through the loop appends a helper gate (line %d) and comes back to the loop head without assigning the counter the renumbered output is taken from" % bad[1]["sp"][1], st["sp"]))
         elif not bad:
-            res.ok({"store": "line %d" % st["sp"][1], "depends_on": sorted("%s:%s" % k for k in src), "helper_gates_per_iteration": len(pushes),
+            res.ok({"store": "line %d" % st["sp"][1], "depends_on": sorted("%s:%s" % k for k in src), "helper_gates_per_iteration": sum(appended.get(pb_, 1) for pb_, _ in pushes),
                     "verdict": "the number changes with every repeated output"})
     return res
 
